@@ -45,7 +45,7 @@ def run (op : String) (j : Json) : Option Json :=
     let files := (arr j "files").map fun f => match asArr f with
       | [p, c] => (asStr p, (asStr c).toList)
       | _ => ("", [])
-    let (n, rest) := extractNotes (boolv j "subNotes") (str j "mainNotes") files
+    let (n, rest) := extractNotesSorted (boolv j "subNotes") (str j "mainNotes") files
     let heads := kvs (obj j "heads")
     let headOf := fun (d : Str) => match heads.find? (·.1 == String.ofList d) with
       | some (_, h) => headOfJson h
@@ -56,7 +56,7 @@ def run (op : String) (j : Json) : Option Json :=
     let files := (arr j "files").map fun f => match asArr f with
       | [p, c] => (asStr p, (asStr c).toList)
       | _ => ("", [])
-    let (n, rest) := extractNotes (boolv j "subNotes") (str j "mainNotes") files
+    let (n, rest) := extractNotesSorted (boolv j "subNotes") (str j "mainNotes") files
     some <| Json.mkObj [("notes", jchars n), ("rest", jlist (fun (p, _) => jstr p) rest)]
   | _ => none
 
